@@ -130,7 +130,7 @@ package connlist
 //@ func (*formatJSON).writeOutput
 //@   requires j != nil && connsOK(conns)
 //@   modifies *
-//@   ensures [C09] reset: (err == nil && exposureFlag) ==> ipMapsOfCall(j.ipMaps, conns)
+//@   ensures [C09] reset: (res1 == nil && exposureFlag) ==> ipMapsOfCall(j.ipMaps, conns)
 //@ func (*formatCSV).writeCsvConnlistTable
 //@   requires cs != nil && connsOK(conns)
 //@   modifies *
